@@ -48,12 +48,14 @@ const (
 	QUnaryTrailerOnly // status + trailer, no body, naming a unary method
 	QUnaryNoDest      // a well-formed unary request whose destination is empty
 	QOpenNoDest       // a stream open whose destination is empty
+	QUnaryExtraSegment // a unary request whose method is a registered one with "/more" appended: no such service
+	QOpenExtraSegment  // a stream open whose method is a registered one with a trailing slash / further segments
 	numQShapes
 )
 
 var qShapeNames = []string{"no-header", "empty-method", "no-slash", "unknown-service", "unknown-method", "wrong-destination", "unary",
 	"unary-bad-md", "unary-nil-body", "open", "open-bad-md", "open-with-body", "body", "trailer-ok", "trailer-err", "reset", "reset-other",
-	"body+trailer", "status-only", "unary+trailer", "empty", "open-sstream", "open-cstream", "huge-id", "unary-bad-timeout", "trailer-no-status", "unary-reset", "unary-trailer-only", "unary-no-destination", "open-no-destination"}
+	"body+trailer", "status-only", "unary+trailer", "empty", "open-sstream", "open-cstream", "huge-id", "unary-bad-timeout", "trailer-no-status", "unary-reset", "unary-trailer-only", "unary-no-destination", "open-no-destination", "unary-extra-segment", "open-extra-segment"}
 
 type RawReq struct {
 	Shape int `json:"shape"`
@@ -90,6 +92,10 @@ func buildReq(q RawReq, n int) *Rpc {
 		r.Header, r.Body = hdr("nomethod"), bytesBody(payload)
 	case QUnknownService:
 		r.Header, r.Body = hdr("/no.Such/Method"), bytesBody(payload)
+	case QUnaryExtraSegment:
+		r.Header, r.Body = hdr(methodNames[KUnary]+[]string{"/extra", "/", "/x/y"}[(q.ID+n)%3]), bytesBody(payload)
+	case QOpenExtraSegment:
+		r.Header = hdr(methodNames[KBidi] + []string{"/extra", "/", "/x/y"}[(q.ID+n)%3])
 	case QUnknownMethod:
 		r.Header, r.Body = hdr("/verif.Sim/Nope"), bytesBody(payload)
 	case QWrongDest:
@@ -482,6 +488,25 @@ func execC12(e *Env, pp any) {
 			e.Violate(prop, "response-misaddressed", "server", "response for id %d addressed to %q", r.GetId(), r.GetHeader().GetDestination())
 		}
 	}
+	// last phase (C10): the connection ends - its read side fails, or the server is
+	// stopped - and Serve returns, whatever this peer has done on it before
+	if !sr.Returned {
+		how := "readfail"
+		if len(p.Seq)%2 == 1 {
+			how = "stop"
+			e.Call("server.stop", srv.Stop)
+			e.Note("fault.server.stop")
+		} else {
+			b.In.FailRead(InjectedErr(len(p.Seq)))
+			e.Note("fault.link.readFail")
+		}
+		if rr := e.Settle(); rr == Crashed || rr == StepLimit {
+			return
+		}
+		if !sr.Returned {
+			e.Violate("C10", "serve-not-returned", "after-hostile-peer."+how, "Serve has not returned after the %s that ended a connection on which a peer had sent the sequence %v (and re-used id 1)\n%s", how, seqString(p.Seq), e.WaitGraph())
+		}
+	}
 }
 
 func seqString(s []RawReq) string {
@@ -537,7 +562,7 @@ func genC12At(idx uint64, g *rand.Rand, tier string) any {
 }
 
 func init() {
-	Register(&Family{Name: "c12.hostile-client", ShrinkKeys: []string{"seq"}, Props: []string{"C12", "C14"}, New: func() any { return &C12Params{} }, Gen: genC12, GenAt: genC12At, Exec: execC12,
+	Register(&Family{Name: "c12.hostile-client", ShrinkKeys: []string{"seq"}, Props: []string{"C12", "C14", "C10"}, New: func() any { return &C12Params{} }, Gen: genC12, GenAt: genC12At, Exec: execC12,
 		Faulty: true, FaultKinds: []string{"peer.malformed"}})
 }
 
